@@ -27,6 +27,8 @@ def make_epoch_edge(P, g, tag):
     class EpochEdge(g.BaseEdge):
         """chi^2 is a free non-negative value per graph state; error/Jacobians are constants of the right shape"""
 
+        all_verts = None
+
         def __init__(self, vertex_ids, k):
             super().__init__(vertex_ids, np.eye(2), None)
             self.k = k
@@ -35,10 +37,10 @@ def make_epoch_edge(P, g, tag):
             self.chi = {}
 
         def _state(self):
-            objs = tuple(id(v.pose) for v in self.vertices)
+            objs = tuple(id(v.pose) for v in (self.all_verts or self.vertices))
             if objs != self.seen:
                 self.seen = objs
-                self._hold = [v.pose for v in self.vertices]  # keep ids unique
+                self._hold = [v.pose for v in (self.all_verts or self.vertices)]  # keep ids unique
                 self.epoch += 1
             return self.epoch
 
@@ -69,8 +71,11 @@ def make_epoch_edge(P, g, tag):
 
 def _build(P, g, tag=""):
     EpochEdge = make_epoch_edge(P, g, "")
-    verts = [g.Vertex(i, g.PoseR2([0.5 * i, 1.0 - i])) for i in range(3)]
-    edges = [EpochEdge([0, 1], 0), EpochEdge([2, 1], 1)]
+    verts = [g.Vertex(i, g.PoseR2([0.5 * i, 1.0 - i])) for i in range(4)]
+    verts[3].fixed = True
+    # the third edge joins two fixed vertices: its chi^2 still belongs to the graph's chi^2
+    edges = [EpochEdge([0, 1], 0), EpochEdge([2, 1], 1), EpochEdge([0, 3], 2), EpochEdge([3, 2], 3)]
+    EpochEdge.all_verts = verts  # a state = the pose objects of the whole graph
     return g.Graph(edges, verts), verts, edges
 
 
